@@ -308,7 +308,7 @@ def main(ck):
     ck.case(nontrivial=nt, key=case, sample=dict(capacity0=case[0], ops=case[1]),
             labels=sorted(labels) + (['nt:evict+shared'] if nt else []))
 
-  ck.run_hypothesis(test, ops_strategy(ck.budget(40, 80)), ck.budget(1500, 60000), name='cache-history')
+  ck.run_hypothesis(test, ops_strategy(ck.budget(40, 80)), ck.budget(1500, 40000), name='cache-history')
 
   # ---- concurrent histories: 4 real threads, invariants at quiescence (sizes are a function of the id so that the
   # expected Size() can be recomputed from HasAsset alone)
